@@ -728,6 +728,8 @@ class HTTPConnectionPool(ConnectionPool, RequestMethods):
             url = to_str(parsed_url._replace(auth=None, fragment=None).url)
 
         conn = None
+        # Whether this call holds a slot of the pool (only then may it give one back).
+        slot_taken = False
 
         # Track whether `conn` needs to be released before
         # returning/raising/recursing. Update this variable if necessary, and
@@ -771,6 +773,7 @@ class HTTPConnectionPool(ConnectionPool, RequestMethods):
             # Request a connection from the queue.
             timeout_obj = self._get_timeout(timeout)
             conn = self._get_conn(timeout=pool_timeout)
+            slot_taken = True
 
             conn.timeout = timeout_obj.connect_timeout  # type: ignore[assignment]
 
@@ -871,7 +874,7 @@ class HTTPConnectionPool(ConnectionPool, RequestMethods):
                     conn = None
                 release_this_conn = True
 
-            if release_this_conn:
+            if release_this_conn and slot_taken:
                 # Put the connection back to be reused. If the connection is
                 # expired then it will be None, which will get replaced with a
                 # fresh connection during _get_conn.
